@@ -88,17 +88,55 @@ func BaselineKeys(pkgs []*packages.Package) []string {
 			for _, d := range f.Decls {
 				if fd, ok := d.(*ast.FuncDecl); ok {
 					out = append(out, FuncKey(p.PkgPath, fd))
+					if fd.Body != nil {
+						out = append(out, closureKeys(FuncKey(p.PkgPath, fd), fd)...)
+					}
 				}
 			}
 		}
 	})
 	sort.Strings(out)
+	// de-duplicate
+	var uniq []string
+	for i, k := range out {
+		if i == 0 || out[i-1] != k {
+			uniq = append(uniq, k)
+		}
+	}
+	return uniq
+}
+
+// closureKeys names the local closures (`name := func…` -> "<func>$name") and immediately-invoked literals
+// ("<func>$iife") of a function.
+func closureKeys(fkey string, fd *ast.FuncDecl) []string {
+	var out []string
+	ast.Inspect(fd.Body, func(n ast.Node) bool {
+		switch x := n.(type) {
+		case *ast.AssignStmt:
+			if x.Tok == token.DEFINE && len(x.Lhs) == 1 && len(x.Rhs) == 1 {
+				if id, ok := x.Lhs[0].(*ast.Ident); ok {
+					if _, ok := x.Rhs[0].(*ast.FuncLit); ok {
+						out = append(out, fkey+"$"+id.Name)
+					}
+				}
+			}
+		case *ast.CallExpr:
+			if _, ok := ast.Unparen(x.Fun).(*ast.FuncLit); ok {
+				out = append(out, fkey+"$iife")
+			}
+		}
+		return true
+	})
 	return out
 }
 
 type helper struct {
-	decl   *ast.FuncDecl
-	obj    *types.Func
+	decl   *ast.FuncDecl // nil for local closures
+	obj    *types.Func   // nil for local closures
+	name   string
+	sig    *types.Signature
+	lit    *ast.FuncLit // local closure / immediately-invoked literal
+	def    ast.Stmt     // `name := func…` (local closures)
 	pkg    *packages.Package
 	file   *ast.File
 	expr   ast.Expr // non-nil: body is `return expr`
@@ -108,9 +146,17 @@ type helper struct {
 	bodySr string
 }
 
+func (h *helper) body() *ast.BlockStmt {
+	if h.lit != nil {
+		return h.lit.Body
+	}
+	return h.decl.Body
+}
+
 type normalizer struct {
 	fset    *token.FileSet
 	helpers map[*types.Func]*helper
+	locals  map[types.Object]*helper // local closures by their variable
 	n       int
 	changed map[*ast.File]*packages.Package
 	imports map[*ast.File]map[string]string // path -> name to add
@@ -121,7 +167,7 @@ func normalize(pkgs []*packages.Package, dropUnused bool) map[string][]byte {
 	if Baseline == nil {
 		return nil
 	}
-	nz := &normalizer{helpers: map[*types.Func]*helper{}, changed: map[*ast.File]*packages.Package{}, imports: map[*ast.File]map[string]string{}}
+	nz := &normalizer{helpers: map[*types.Func]*helper{}, locals: map[types.Object]*helper{}, changed: map[*ast.File]*packages.Package{}, imports: map[*ast.File]map[string]string{}}
 	var mod []*packages.Package
 	packages.Visit(pkgs, nil, func(p *packages.Package) {
 		if strings.HasPrefix(p.PkgPath, ModPath) && len(p.Syntax) > 0 && p.TypesInfo != nil {
@@ -146,7 +192,7 @@ func normalize(pkgs []*packages.Package, dropUnused bool) map[string][]byte {
 					nlog("helper %s not inlined: %s", FuncKey(p.PkgPath, fd), why)
 					continue
 				}
-				h := &helper{decl: fd, obj: obj, pkg: p, file: f}
+				h := &helper{decl: fd, obj: obj, name: fd.Name.Name, sig: obj.Type().(*types.Signature), pkg: p, file: f}
 				if len(fd.Body.List) == 1 {
 					if r, ok := fd.Body.List[0].(*ast.ReturnStmt); ok && len(r.Results) == 1 && !containsFuncLit(r.Results[0]) {
 						h.expr = r.Results[0]
@@ -165,7 +211,19 @@ func normalize(pkgs []*packages.Package, dropUnused bool) map[string][]byte {
 			}
 		}
 	}
-	if len(nz.helpers) == 0 {
+	// local closures: `name := func(...) {...}` used only as the callee of calls
+	for _, p := range mod {
+		for _, f := range p.Syntax {
+			for _, d := range f.Decls {
+				fd, ok := d.(*ast.FuncDecl)
+				if !ok || fd.Body == nil {
+					continue
+				}
+				nz.collectClosures(p, f, fd)
+			}
+		}
+	}
+	if len(nz.helpers) == 0 && len(nz.locals) == 0 && !nz.hasIIFE(mod) {
 		return nil
 	}
 	// reference counts
@@ -198,16 +256,21 @@ func normalize(pkgs []*packages.Package, dropUnused bool) map[string][]byte {
 	// 3. drop helpers whose every reference was inlined
 	if dropUnused {
 		for _, h := range nz.helpers {
-			if h.inl > 0 && h.inl == h.uses {
+			if h.decl != nil && h.inl > 0 && h.inl == h.uses {
 				for i, d := range h.file.Decls {
 					if d == ast.Decl(h.decl) {
 						h.file.Decls = append(h.file.Decls[:i:i], h.file.Decls[i+1:]...)
 						nz.changed[h.file] = h.pkg
-						nlog("helper %s removed (all %d call sites inlined)", FuncKey(h.pkg.PkgPath, h.decl), h.inl)
+						nlog("helper %s removed (all %d call sites inlined)", h.name, h.inl)
 						break
 					}
 				}
 			}
+		}
+	}
+	for _, h := range nz.locals {
+		if h.inl > 0 && h.inl == h.uses && h.def != nil {
+			nz.removeDef(h)
 		}
 	}
 	out := map[string][]byte{}
@@ -313,7 +376,9 @@ func notInlinable(fd *ast.FuncDecl, obj *types.Func, info *types.Info) string {
 		case *ast.FuncLit:
 			return false
 		case *ast.DeferStmt:
-			why = "uses defer"
+			if !simpleDefer(fd.Body, x) {
+				why = "uses defer other than a top-level `defer x.m(pure args)`"
+			}
 		case *ast.LabeledStmt:
 			why = "has labels"
 		case *ast.BranchStmt:
@@ -341,7 +406,14 @@ func notInlinable(fd *ast.FuncDecl, obj *types.Func, info *types.Info) string {
 // calleeOf resolves a call to a candidate helper.
 func (nz *normalizer) calleeOf(p *packages.Package, call *ast.CallExpr) (*helper, ast.Expr) {
 	switch fun := ast.Unparen(call.Fun).(type) {
+	case *ast.FuncLit:
+		return nz.iife(p, fun), nil
 	case *ast.Ident:
+		if v, ok := p.TypesInfo.Uses[fun].(*types.Var); ok {
+			if h := nz.locals[v]; h != nil {
+				return h, nil
+			}
+		}
 		if fn, ok := p.TypesInfo.Uses[fun].(*types.Func); ok {
 			if h := nz.helpers[fn]; h != nil && h.decl.Recv == nil {
 				return h, nil
@@ -403,7 +475,7 @@ func (nz *normalizer) hygienic(h *helper, p *packages.Package, f *ast.File, pos 
 			}
 			_, found := scope.LookupParent(id.Name, pos)
 			if found != obj {
-				nlog("inlining %s: name %s is shadowed at the call site", h.decl.Name.Name, id.Name)
+				nlog("inlining %s: name %s is shadowed at the call site", h.name, id.Name)
 				return false
 			}
 		default:
@@ -413,13 +485,30 @@ func (nz *normalizer) hygienic(h *helper, p *packages.Package, f *ast.File, pos 
 					continue
 				}
 				if found != nil {
-					nlog("inlining %s: package name %s means something else at the call site", h.decl.Name.Name, id.Name)
+					nlog("inlining %s: package name %s means something else at the call site", h.name, id.Name)
 					return false
 				}
 				if nz.imports[f] == nil {
 					nz.imports[f] = map[string]string{}
 				}
 				nz.imports[f][pn.Imported().Path()] = id.Name
+			}
+		}
+	}
+	if h.lit != nil {
+		// captured variables must be the same objects at the call site
+		for _, id := range h.free {
+			obj := h.pkg.TypesInfo.Uses[id]
+			v, isVar := obj.(*types.Var)
+			if !isVar || v.IsField() || v.Parent() == nil || v.Parent() == h.pkg.Types.Scope() {
+				continue
+			}
+			if h.lit.Pos() <= v.Pos() && v.Pos() < h.lit.End() {
+				continue // the closure's own parameters and locals
+			}
+			if _, found := scope.LookupParent(id.Name, pos); found != obj {
+				nlog("inlining closure %s: captured %s is not visible (or shadowed) at the call site", h.name, id.Name)
+				return false
 			}
 		}
 	}
@@ -487,8 +576,8 @@ func copyExpr(fset *token.FileSet, e ast.Expr) ast.Expr {
 
 // paramNames flattens receiver and parameters.
 func paramList(h *helper) (names []string, typesOf []types.Type) {
-	sig := h.obj.Type().(*types.Signature)
-	if sig.Recv() != nil {
+	sig := h.sig
+	if h.decl != nil && sig.Recv() != nil {
 		n := "_"
 		if len(h.decl.Recv.List[0].Names) == 1 {
 			n = h.decl.Recv.List[0].Names[0].Name
@@ -514,7 +603,7 @@ func (nz *normalizer) inlineStmts(h *helper, p *packages.Package, f *ast.File, c
 	}
 	nz.n++
 	id := nz.n
-	sig := h.obj.Type().(*types.Signature)
+	sig := h.sig
 	names, ptypes := paramList(h)
 	args := call.Args
 	if recv != nil {
@@ -578,37 +667,73 @@ func (nz *normalizer) inlineStmts(h *helper, p *packages.Package, f *ast.File, c
 	label := fmt.Sprintf("inl%d", id)
 	bad := false
 	nret := 0
-	astutil.Apply(body, func(c *astutil.Cursor) bool {
-		switch x := c.Node().(type) {
-		case *ast.FuncLit:
-			return false
-		case *ast.ReturnStmt:
-			var repl []ast.Stmt
-			switch {
-			case len(results) == 0:
-			case len(x.Results) == 0:
-				// bare return with named results
-				var rhs []ast.Expr
-				for _, n := range named {
-					if n == "" {
-						bad = true
-						return false
-					}
-					rhs = append(rhs, ast.NewIdent(n))
-				}
-				repl = append(repl, &ast.AssignStmt{Lhs: idents(results), Tok: token.ASSIGN, Rhs: rhs})
-			default:
-				repl = append(repl, &ast.AssignStmt{Lhs: idents(results), Tok: token.ASSIGN, Rhs: x.Results})
-			}
-			repl = append(repl, &ast.BranchStmt{Tok: token.BREAK, Label: ast.NewIdent(label)})
-			nret++
-			c.Replace(&ast.BlockStmt{List: repl})
-			return false
+	// top-level `defer f(pure…)` statements run, last first, at every return that follows them and at the end of the
+	// body (a panic between the defer and the return is the only difference; no function of the module recovers)
+	var deferred []*ast.CallExpr
+	deferredAt := map[ast.Stmt][]*ast.CallExpr{}
+	for i, st := range body.List {
+		if d, ok := st.(*ast.DeferStmt); ok {
+			deferred = append([]*ast.CallExpr{d.Call}, deferred...)
+			body.List[i] = &ast.EmptyStmt{Implicit: true}
+			continue
 		}
-		return true
-	}, nil)
+		deferredAt[st] = deferred
+	}
+	runDeferred := func(calls []*ast.CallExpr) []ast.Stmt {
+		var out []ast.Stmt
+		for _, c := range calls {
+			out = append(out, &ast.ExprStmt{X: copyOf(c)})
+		}
+		return out
+	}
+	var curTop ast.Stmt
+	for _, top := range body.List {
+		curTop = top
+		astutil.Apply(top, func(c *astutil.Cursor) bool {
+			switch x := c.Node().(type) {
+			case *ast.FuncLit:
+				return false
+			case *ast.ReturnStmt:
+				var repl []ast.Stmt
+				switch {
+				case len(results) == 0:
+				case len(x.Results) == 0:
+					// bare return with named results
+					var rhs []ast.Expr
+					for _, n := range named {
+						if n == "" {
+							bad = true
+							return false
+						}
+						rhs = append(rhs, ast.NewIdent(n))
+					}
+					repl = append(repl, &ast.AssignStmt{Lhs: idents(results), Tok: token.ASSIGN, Rhs: rhs})
+				default:
+					repl = append(repl, &ast.AssignStmt{Lhs: idents(results), Tok: token.ASSIGN, Rhs: x.Results})
+				}
+				repl = append(repl, runDeferred(deferredAt[curTop])...)
+				repl = append(repl, &ast.BranchStmt{Tok: token.BREAK, Label: ast.NewIdent(label)})
+				nret++
+				if c.Node() == ast.Node(top) {
+					// a top-level return cannot be replaced through the cursor of its own root
+					for i := range body.List {
+						if body.List[i] == top {
+							body.List[i] = &ast.BlockStmt{List: repl}
+						}
+					}
+					return false
+				}
+				c.Replace(&ast.BlockStmt{List: repl})
+				return false
+			}
+			return true
+		}, nil)
+	}
 	if bad {
 		return nil, nil, false
+	}
+	if len(deferred) > 0 {
+		body.List = append(body.List, runDeferred(deferred)...)
 	}
 	if nret > 0 {
 		sw := &ast.LabeledStmt{Label: ast.NewIdent(label), Stmt: &ast.SwitchStmt{Body: &ast.BlockStmt{List: []ast.Stmt{&ast.CaseClause{Body: body.List}}}}}
@@ -619,7 +744,7 @@ func (nz *normalizer) inlineStmts(h *helper, p *packages.Package, f *ast.File, c
 	stmts = append(stmts, &ast.BlockStmt{List: inner})
 	h.inl++
 	nz.changed[f] = p
-	nlog("inlined %s at %s", h.decl.Name.Name, p.Fset.Position(call.Pos()))
+	nlog("inlined %s at %s", h.name, p.Fset.Position(call.Pos()))
 	return stmts, results, true
 }
 
@@ -676,7 +801,7 @@ func (nz *normalizer) replaceStmt(p *packages.Package, f *ast.File, s ast.Stmt) 
 	if call == nil {
 		return nil, false
 	}
-	sig := h.obj.Type().(*types.Signature)
+	sig := h.sig
 	switch x := s.(type) {
 	case *ast.AssignStmt:
 		if len(x.Lhs) != sig.Results().Len() {
@@ -728,6 +853,14 @@ func (nz *normalizer) rewriteBlock(p *packages.Package, f *ast.File, fd *ast.Fun
 			if repl, ok := nz.replaceStmt(p, f, s); ok {
 				out = append(out, repl...)
 				continue
+			}
+			// a helper call nested in the statement's expressions, evaluated before every other call of the statement
+			for guard := 0; guard < 8; guard++ {
+				pre, ok := nz.hoistNested(p, f, s)
+				if !ok {
+					break
+				}
+				out = append(out, pre...)
 			}
 			lists(s)
 			out = append(out, s)
@@ -842,7 +975,7 @@ func (nz *normalizer) rewriteExprs(p *packages.Package, f *ast.File, fd *ast.Fun
 			return true
 		}
 		// the call's static result type is kept by a conversion
-		rt := h.obj.Type().(*types.Signature).Results().At(0).Type()
+		rt := h.sig.Results().At(0).Type()
 		te, tok := nz.typeExpr(rt, p, f)
 		if !tok {
 			return true
@@ -850,7 +983,7 @@ func (nz *normalizer) rewriteExprs(p *packages.Package, f *ast.File, fd *ast.Fun
 		c.Replace(&ast.CallExpr{Fun: &ast.ParenExpr{X: te}, Args: []ast.Expr{e}})
 		h.inl++
 		nz.changed[f] = p
-		nlog("substituted %s at %s", h.decl.Name.Name, p.Fset.Position(call.Pos()))
+		nlog("substituted %s at %s", h.name, p.Fset.Position(call.Pos()))
 		return false
 	}, nil)
 }
@@ -863,4 +996,377 @@ func copyOf(e ast.Expr) ast.Expr {
 		return e
 	}
 	return c
+}
+
+// closureInlinable mirrors notInlinable for function literals.
+func closureInlinable(lit *ast.FuncLit, self types.Object, info *types.Info) string {
+	sig, _ := info.TypeOf(lit).(*types.Signature)
+	if sig == nil {
+		return "no signature"
+	}
+	if sig.Variadic() {
+		return "variadic"
+	}
+	why := ""
+	ast.Inspect(lit.Body, func(n ast.Node) bool {
+		switch x := n.(type) {
+		case *ast.FuncLit:
+			return false
+		case *ast.DeferStmt:
+			if !simpleDefer(lit.Body, x) {
+				why = "uses defer other than a top-level `defer x.m(pure args)`"
+			}
+		case *ast.LabeledStmt:
+			why = "has labels"
+		case *ast.BranchStmt:
+			if x.Tok == token.GOTO {
+				why = "uses goto"
+			}
+		case *ast.Ident:
+			if self != nil && info.Uses[x] == self {
+				why = "recursive"
+			}
+			if b, ok := info.Uses[x].(*types.Builtin); ok && b.Name() == "recover" {
+				why = "calls recover"
+			}
+		}
+		return why == ""
+	})
+	return why
+}
+
+func (nz *normalizer) newLitHelper(p *packages.Package, f *ast.File, name string, lit *ast.FuncLit) *helper {
+	h := &helper{name: name, lit: lit, sig: p.TypesInfo.TypeOf(lit).(*types.Signature), pkg: p, file: f}
+	if len(lit.Body.List) == 1 {
+		if r, ok := lit.Body.List[0].(*ast.ReturnStmt); ok && len(r.Results) == 1 && !containsFuncLit(r.Results[0]) {
+			h.expr = r.Results[0]
+		}
+	}
+	ast.Inspect(lit.Body, func(n ast.Node) bool {
+		if id, ok := n.(*ast.Ident); ok {
+			h.free = append(h.free, id)
+		}
+		return true
+	})
+	var buf bytes.Buffer
+	printer.Fprint(&buf, p.Fset, lit.Body)
+	h.bodySr = buf.String()
+	return h
+}
+
+// collectClosures finds `name := func(...) {...}` whose variable is only ever called.
+func (nz *normalizer) collectClosures(p *packages.Package, f *ast.File, fd *ast.FuncDecl) {
+	ast.Inspect(fd.Body, func(n ast.Node) bool {
+		as, ok := n.(*ast.AssignStmt)
+		if !ok || as.Tok != token.DEFINE || len(as.Lhs) != 1 || len(as.Rhs) != 1 {
+			return true
+		}
+		id, ok := as.Lhs[0].(*ast.Ident)
+		lit, ok2 := as.Rhs[0].(*ast.FuncLit)
+		if !ok || !ok2 {
+			return true
+		}
+		obj := p.TypesInfo.Defs[id]
+		if obj == nil || Baseline[FuncKey(p.PkgPath, fd)+"$"+id.Name] {
+			return true
+		}
+		if why := closureInlinable(lit, obj, p.TypesInfo); why != "" {
+			nlog("closure %s not inlined: %s", id.Name, why)
+			return true
+		}
+		// every use is the callee of a call (not a go/defer), and the variable is never assigned again
+		uses, okUses := 0, true
+		ast.Inspect(fd.Body, func(m ast.Node) bool {
+			switch x := m.(type) {
+			case *ast.GoStmt:
+				if cid, ok := x.Call.Fun.(*ast.Ident); ok && p.TypesInfo.Uses[cid] == obj {
+					okUses = false
+				}
+			case *ast.DeferStmt:
+				if cid, ok := x.Call.Fun.(*ast.Ident); ok && p.TypesInfo.Uses[cid] == obj {
+					okUses = false
+				}
+			case *ast.CallExpr:
+				if cid, ok := x.Fun.(*ast.Ident); ok && p.TypesInfo.Uses[cid] == obj {
+					uses++
+					for _, a := range x.Args {
+						ast.Inspect(a, func(k ast.Node) bool {
+							if aid, ok := k.(*ast.Ident); ok && p.TypesInfo.Uses[aid] == obj {
+								okUses = false
+							}
+							return true
+						})
+					}
+					return true
+				}
+			case *ast.Ident:
+				if p.TypesInfo.Uses[x] == obj {
+					uses--
+				}
+			}
+			return true
+		})
+		// the Ident visit above also sees the callee identifiers: each call contributed +1 and its Fun ident -1
+		if !okUses || uses != 0 {
+			nlog("closure %s not inlined: used other than as a callee", id.Name)
+			return true
+		}
+		h := nz.newLitHelper(p, f, id.Name, lit)
+		h.def = as
+		ast.Inspect(fd.Body, func(m ast.Node) bool {
+			if c, ok := m.(*ast.CallExpr); ok {
+				if cid, ok := c.Fun.(*ast.Ident); ok && p.TypesInfo.Uses[cid] == obj {
+					h.uses++
+				}
+			}
+			return true
+		})
+		nz.locals[obj] = h
+		return true
+	})
+}
+
+var iifeMemo = map[*ast.FuncLit]*helper{}
+
+// iife: a function literal that is called where it is written.
+func (nz *normalizer) iife(p *packages.Package, lit *ast.FuncLit) *helper {
+	if h, ok := iifeMemo[lit]; ok {
+		return h
+	}
+	var f *ast.File
+	for _, x := range p.Syntax {
+		if x.Pos() <= lit.Pos() && lit.End() <= x.End() {
+			f = x
+		}
+	}
+	var h *helper
+	if f != nil {
+		for _, d := range f.Decls {
+			if fd, ok := d.(*ast.FuncDecl); ok && fd.Pos() <= lit.Pos() && lit.End() <= fd.End() {
+				if Baseline[FuncKey(p.PkgPath, fd)+"$iife"] {
+					f = nil // the pinned tree already has an immediately-invoked literal here: leave the function alone
+				}
+			}
+		}
+	}
+	if f != nil && closureInlinable(lit, nil, p.TypesInfo) == "" {
+		h = nz.newLitHelper(p, f, "func literal", lit)
+		h.expr = nil // always statement-level
+		h.uses = 1
+	}
+	iifeMemo[lit] = h
+	return h
+}
+
+func (nz *normalizer) hasIIFE(mod []*packages.Package) bool {
+	found := false
+	for _, p := range mod {
+		for _, f := range p.Syntax {
+			ast.Inspect(f, func(n ast.Node) bool {
+				if c, ok := n.(*ast.CallExpr); ok {
+					if _, ok := ast.Unparen(c.Fun).(*ast.FuncLit); ok {
+						if _, isGo := n.(*ast.GoStmt); !isGo {
+							found = true
+						}
+					}
+				}
+				return !found
+			})
+		}
+	}
+	return found
+}
+
+// removeDef deletes the `name := func…` statement of a fully inlined closure.
+func (nz *normalizer) removeDef(h *helper) {
+	ast.Inspect(h.file, func(n ast.Node) bool {
+		var list *[]ast.Stmt
+		switch b := n.(type) {
+		case *ast.BlockStmt:
+			list = &b.List
+		case *ast.CaseClause:
+			list = &b.Body
+		case *ast.CommClause:
+			list = &b.Body
+		}
+		if list != nil {
+			for i, s := range *list {
+				if s == h.def {
+					*list = append((*list)[:i:i], (*list)[i+1:]...)
+					nz.changed[h.file] = h.pkg
+					nlog("closure %s removed (all %d call sites inlined)", h.name, h.inl)
+					return false
+				}
+			}
+		}
+		return true
+	})
+}
+
+// hoistNested: if the first call evaluated by statement s (Go evaluates calls in lexical left-to-right order, arguments
+// before the call they belong to; the order of plain variable reads relative to calls is unspecified) is a call to a
+// helper with exactly one result, the helper body is inlined before s and the call is replaced by its result temporary.
+func (nz *normalizer) hoistNested(p *packages.Package, f *ast.File, s ast.Stmt) ([]ast.Stmt, bool) {
+	var roots []*ast.Expr
+	switch x := s.(type) {
+	case *ast.ExprStmt:
+		roots = append(roots, &x.X)
+	case *ast.AssignStmt:
+		for i := range x.Lhs {
+			if _, isIdent := x.Lhs[i].(*ast.Ident); !isIdent {
+				roots = append(roots, &x.Lhs[i]) // index / selector operands of the left side are evaluated first
+			}
+		}
+		for i := range x.Rhs {
+			roots = append(roots, &x.Rhs[i])
+		}
+	case *ast.ReturnStmt:
+		for i := range x.Results {
+			roots = append(roots, &x.Results[i])
+		}
+	case *ast.IfStmt:
+		if x.Init == nil {
+			roots = append(roots, &x.Cond)
+		}
+	case *ast.SendStmt:
+		roots = append(roots, &x.Chan, &x.Value)
+	case *ast.IncDecStmt:
+		roots = append(roots, &x.X)
+	case *ast.SwitchStmt:
+		if x.Init == nil && x.Tag != nil {
+			roots = append(roots, &x.Tag)
+		}
+	default:
+		return nil, false
+	}
+	// first call in evaluation order
+	var first *ast.CallExpr
+	var conditional bool
+	var walk func(e ast.Expr, cond bool) bool // returns true when the first call was found
+	walk = func(e ast.Expr, cond bool) bool {
+		switch x := e.(type) {
+		case nil:
+			return false
+		case *ast.FuncLit:
+			return false
+		case *ast.BinaryExpr:
+			if walk(x.X, cond) {
+				return true
+			}
+			return walk(x.Y, cond || x.Op == token.LAND || x.Op == token.LOR)
+		case *ast.CallExpr:
+			if tv, ok := p.TypesInfo.Types[x.Fun]; ok && tv.IsType() {
+				for _, a := range x.Args {
+					if walk(a, cond) {
+						return true
+					}
+				}
+				return false // a conversion is not a call
+			}
+			if walk(x.Fun, cond) {
+				return true
+			}
+			for _, a := range x.Args {
+				if walk(a, cond) {
+					return true
+				}
+			}
+			first, conditional = x, cond
+			return true
+		case *ast.ParenExpr:
+			return walk(x.X, cond)
+		case *ast.SelectorExpr:
+			return walk(x.X, cond)
+		case *ast.StarExpr:
+			return walk(x.X, cond)
+		case *ast.UnaryExpr:
+			if x.Op == token.ARROW {
+				first, conditional = nil, true // a receive: treat like a foreign call
+				return true
+			}
+			return walk(x.X, cond)
+		case *ast.IndexExpr:
+			return walk(x.X, cond) || walk(x.Index, cond)
+		case *ast.SliceExpr:
+			return walk(x.X, cond) || walk(x.Low, cond) || walk(x.High, cond) || walk(x.Max, cond)
+		case *ast.TypeAssertExpr:
+			return walk(x.X, cond)
+		case *ast.KeyValueExpr:
+			return walk(x.Key, cond) || walk(x.Value, cond)
+		case *ast.CompositeLit:
+			for _, el := range x.Elts {
+				if walk(el, cond) {
+					return true
+				}
+			}
+			return false
+		}
+		return false
+	}
+	for _, r := range roots {
+		if walk(*r, false) {
+			break
+		}
+	}
+	if first == nil || conditional {
+		return nil, false
+	}
+	h, recv := nz.calleeOf(p, first)
+	if h == nil || h.sig.Results().Len() != 1 {
+		return nil, false
+	}
+	if h.expr != nil && allPure(first.Args) && (recv == nil || pureExpr(recv)) {
+		return nil, false // substituted as an expression later
+	}
+	// the whole statement being the call is replaceStmt's business
+	for _, r := range roots {
+		if ast.Expr(first) == *r {
+			if _, isExpr := s.(*ast.ExprStmt); isExpr {
+				return nil, false
+			}
+		}
+	}
+	stmts, results, ok := nz.inlineStmts(h, p, f, first, recv)
+	if !ok {
+		return nil, false
+	}
+	// replace the call node by the result temporary
+	replaced := false
+	astutil.Apply(s, func(c *astutil.Cursor) bool {
+		if c.Node() == ast.Node(first) {
+			c.Replace(ast.NewIdent(results[0]))
+			replaced = true
+			return false
+		}
+		_, isLit := c.Node().(*ast.FuncLit)
+		return !isLit
+	}, nil)
+	if !replaced {
+		return nil, false
+	}
+	return stmts, true
+}
+
+// simpleDefer: d is a top-level statement of body and its call has only pure operands (so evaluating them at the
+// return instead of at the defer statement makes no difference), e.g. `defer mu.Unlock()`, `defer f.Close()`.
+func simpleDefer(body *ast.BlockStmt, d *ast.DeferStmt) bool {
+	top := false
+	for _, st := range body.List {
+		if st == ast.Stmt(d) {
+			top = true
+		}
+	}
+	if !top {
+		return false
+	}
+	switch fun := d.Call.Fun.(type) {
+	case *ast.Ident:
+	case *ast.SelectorExpr:
+		if !pureExpr(fun.X) {
+			return false
+		}
+	default:
+		return false
+	}
+	return allPure(d.Call.Args)
 }
